@@ -71,7 +71,7 @@ static bool MakeOffence(Source& s, int archive, K target, DynNode& repl, std::st
 	std::vector<int> opts;   // 0 str, 1 arr, 2 obj, 3 null, 4 float 1.5, 5 out-of-range, 6 bin, 7 int, 8 array-of-bytes, 9 timestamp
 	if (IsInteger(target)) { opts = { 0, 3, 4, 5 }; if (archive != A_CSV) { opts.push_back(1); opts.push_back(2); } if (archive == A_MSGPACK) { opts.push_back(6); opts.push_back(9); opts.push_back(9); } if (archive == A_JSON) opts.push_back(9); }
 	else if (target == K::Ts) { opts = { 0, 3 }; if (archive != A_CSV) { opts.push_back(1); opts.push_back(2); } if (!text) { opts.push_back(7); opts.push_back(4); opts.push_back(10); } }
-	else if (target == K::Bool) { opts = { 0 }; if (archive != A_CSV) { opts.push_back(1); opts.push_back(2); } }
+	else if (target == K::Bool) { opts = { 0, 5 }; if (archive != A_CSV) { opts.push_back(1); opts.push_back(2); } }
 	else if (target == K::F32 || target == K::F64) { opts = { 0, 3 }; if (archive != A_CSV) { opts.push_back(1); opts.push_back(2); } }
 	else if (IsString(target)) { if (archive == A_CSV) return false; opts = { 1, 2, 3 }; if (!text) opts.push_back(7); }
 	else if (target == K::Arr) { opts = { 7, 0 }; if (archive != A_XML) opts.push_back(2); }
@@ -92,6 +92,7 @@ static bool MakeOffence(Source& s, int archive, K target, DynNode& repl, std::st
 		name = "out_of_range";
 		switch (target)
 		{
+		case K::Bool: { static const int32_t v[] = { 2, 5, 127, 128, 200, -1, 70000 }; repl = DynNode(K::I32); repl.i32 = s.pick(sim::L_FAULT, v); break; }
 		case K::I8: repl = DynNode(K::I32); repl.i32 = s.chance(sim::L_FAULT, 1, 2) ? 128 : -129; break;
 		case K::U8: repl = DynNode(K::I32); repl.i32 = s.chance(sim::L_FAULT, 1, 2) ? 256 : -1; break;
 		case K::I16: repl = DynNode(K::I32); repl.i32 = s.chance(sim::L_FAULT, 1, 2) ? 32768 : -32769; break;
